@@ -40,6 +40,8 @@ class Walker:
         self.pingc = {}         # fd -> pending pings (count of pings since last drain)
         self.src_of_fd = {}     # fd -> handle of ping/chan source
         self.chan = {}          # c -> dict(q=[], senders=int, fd=, bound=, closed_delivered=False)
+        self.excuse_why = {}    # h -> reasons it is no longer judged
+        self.int_expect = {}    # (h, sub index) -> [interest, mode, stage] after a top-level set_interest (+ update)
         self.timer = {}         # h -> dict(dl=None|int, armed=bool)
         self.ctimer = {}        # composite h with a Timer sub-source -> dict(nsub, rereg_in)
         self.has_ctimer = False
@@ -55,6 +57,10 @@ class Walker:
         self.touched = set()    # handles named by any operation during the current dispatch
         self.snapshot = None
         self.disp = None
+
+    def excuse(self, h, why):
+        self.excused.add(h)
+        self.excuse_why.setdefault(h, set()).add(why)
 
     def fail(self, prop, kind, msg):
         self.fails.append("%s/%s: %s" % (prop, kind, msg))
@@ -117,7 +123,7 @@ class Walker:
             pass  # handled on its op line
         elif op == "setint":
             h = int(ws[1])
-            self.excused.add(h)
+            self.excuse(h, "setint")
 
     def run_script_silent(self, acts):
         for a in acts:
@@ -184,6 +190,13 @@ class Walker:
         insider = (self.cur == h)
         if op in (3, 4, 5) and res == 0:
             self.last_toggle = (self.disp_no, h)
+        if op == 5 and not self.in_dispatch:
+            for k, v in list(self.int_expect.items()):
+                if k[0] == h and v[2] == "updating":
+                    if res == 0:
+                        v[2] = "applied"
+                    else:
+                        del self.int_expect[k]
         if op == 1:
             if res == 0:
                 self.live.add(h)
@@ -202,7 +215,7 @@ class Walker:
                     self.src_of_fd[int(sp[-1])] = h
             else:
                 self.failed_insert.add(h)
-                self.excused.add(h)
+                self.excuse(h, "insert-failed")
         elif op == 2:
             if h in self.live:
                 if insider:
@@ -220,12 +233,18 @@ class Walker:
                     if h in self.timer:
                         self.timer[h]["armed"] = False
             elif res in (2, 3):
-                self.excused.add(h)
+                self.excuse(h, "disable-failed")
                 self.reg_failed = True
         elif op == 4:
             if h in self.dead and res != 1:
                 self.fail("C06", "token-alive", "enable() with the token of removed source %d returned %d instead of InvalidToken" % (h, res))
             if res == 0 and h in self.live:
+                # a register() that failed changed nothing for a source with one sub-source; once a later register() succeeds its
+                # state is known again
+                sp0 = self.spec.get(h)
+                if self.excuse_why.get(h) == {"register-failed"} and sp0 and sp0[2] == "comp" and sp0[4] == "1" and h not in self.ctimer:
+                    self.excused.discard(h)
+                    self.excuse_why.pop(h, None)
                 if h not in self.disabled:
                     self.double_enabled.add(h)
                 self.disabled.discard(h)
@@ -237,7 +256,7 @@ class Walker:
                     if self.in_dispatch and self.snapshot is not None:
                         self.timer[h]["rearmed_in_batch"] = self.disp_no
             elif res in (2, 3):
-                self.excused.add(h)
+                self.excuse(h, "register-failed")
         elif op == 5:
             if h in self.dead and res != 1:
                 self.fail("C06", "token-alive", "update() with the token of removed source %d returned %d instead of InvalidToken" % (h, res))
@@ -248,7 +267,7 @@ class Walker:
                     self.updated_while_disabled.add(h)
                     if self.kind.get(h) == "comp":
                         # only possible when another source registered the same fd meanwhile (shared fds): state unknown
-                        self.excused.add(h)
+                        self.excuse(h, "update-while-disabled")
                 if h in self.timer and not insider and self.timer[h]["dl"] is not None and h not in self.disabled:
                     self.timer[h]["armed"] = True
                     self.timer[h]["armed_in"] = self.disp_no
@@ -257,7 +276,7 @@ class Walker:
                         # re-armed by a callback after this dispatch polled: an expiry already collected may still arrive (finding F5)
                         self.timer[h]["rearmed_in_batch"] = self.disp_no
             elif res in (2, 3):
-                self.excused.add(h)
+                self.excuse(h, "update-failed")
         elif op == 7:
             if res == 0 and h in self.timer:
                 self.timer[h]["dl_set"] = True   # deadline changed without re-arming: the old arming stays until update
@@ -288,12 +307,22 @@ class Walker:
                 self.in_dispatch = False
                 if cmd[0] == "C":
                     a = cmd[1:]
+                    # set_interest followed by update(), both between dispatches: what the kernel must show afterwards (C16)
+                    if a[0] == "setint":
+                        self.int_expect[(int(a[1]), int(a[2]))] = [int(a[3]), int(a[4]), "set"]
+                    elif a[0] == "update":
+                        for k, v in self.int_expect.items():
+                            if k[0] == int(a[1]) and v[2] == "set":
+                                v[2] = "updating"
+                    elif a[0] in ("insert", "remove", "disable", "enable", "intoinner", "dropdisp") and len(a) > 1:
+                        self.int_expect = {k: v for k, v in self.int_expect.items() if k[0] != int(a[1])}
                     if a[0] == "insert":
                         self.note_insert_spec(a)
                     if a[0] == "setdl":
                         self.last_setdl = (int(a[1]), int(a[2]))
                     self.run_script_silent([a])
                 elif cmd[0] == "D":
+                    self.int_expect = {}
                     self.in_dispatch = True
                     self.disp_no += 1
                     self.phase = int(cmd[1])
@@ -333,7 +362,7 @@ class Walker:
                     self.ctimer[hh]["rereg_in"] = self.disp_no
                 if ws[3] != "0":
                     self.reg_failed = True
-                    self.excused.add(int(ws[1]))   # a failed (re/un)registration leaves the source in an unknown state
+                    self.excuse(int(ws[1]), "register-failed" if ws[2] == "0" else "reregister-failed")   # a failed (re/un)registration leaves the source in an unknown state
                 continue
             if tag == "3":    # before_sleep
                 self.close_segment()
@@ -708,6 +737,22 @@ class Walker:
                 break
         if self.failed_insert or self.reg_failed:
             return   # C16 is stated "absent registration failures"
+        # the interest and trigger mode last (re)registered: set_interest + successful update(), both between dispatches
+        for (h, j), (it, md, stage) in self.int_expect.items():
+            sp = self.spec.get(h)
+            if stage != "applied" or not sp or sp[2] != "comp" or h not in self.live or h in self.disabled or h in self.dead:
+                continue
+            subs = sp[5:]
+            if 3 * j + 2 >= len(subs):
+                continue
+            fd = int(subs[3 * j])
+            fds = [int(subs[q]) for q in range(0, len(subs), 3)]
+            if len(self.fd_users.get(fd, ())) > 1 or fds.count(fd) != 1 or fd not in present:
+                continue
+            shown, kmode, _ = present[fd]
+            if kmode != md or (md != 2 and shown != it) or (md == 2 and shown not in (it, 0)):
+                self.fail("C16", "stale-interest", "fd %d (sub-source %d of source %d) is registered with interest %d mode %d, but interest %d mode %d was set and "
+                          "update() succeeded" % (fd, j + 1, h, shown, kmode, it, md))
         for h, sp in self.spec.items():
             if sp[2] != "comp" or h in self.excused or h in self.failed_insert:
                 continue
